@@ -184,3 +184,27 @@ def overflow_discharged(order, e):
     if op == "Mul":
         return is_const(a) and is_const(b)
     return False
+
+
+def phi_alternatives(ctx, ev, res, v, join_bb=None, depth=0):
+    """Flatten a (nested) phi value of `res`'s own frame into [(value, guards)] - one entry per incoming path class.
+    Guards are those of the CFG edge the alternative arrived on."""
+    out = []
+    if tag(v) == "phi" and len(v) > 4 and depth < 6:
+        site = v[1]
+        # the join block is encoded at the end of the site: '<fn>@<bb>'
+        try:
+            jb = int(str(site[-1]).split("@")[-1])
+        except ValueError:
+            jb = None
+        for alt, origin in zip(v[3], v[4]):
+            if origin is None or jb is None:
+                out.append((alt, None))
+                continue
+            sub_alts = phi_alternatives(ctx, ev, res, alt, jb, depth + 1) if tag(alt) == "phi" else None
+            if sub_alts and all(g is not None for _, g in sub_alts):
+                out.extend(sub_alts)
+            else:
+                out.append((alt, ev.guards_edge(res, origin, jb)))
+        return out
+    return [(v, None)]
